@@ -297,7 +297,7 @@ float_c1 = ExprId(reg_float_c1, is_reg=True)
 float_c2 = ExprId(reg_float_c2, is_reg=True)
 float_c3 = ExprId(reg_float_c3, is_reg=True)
 float_stack_ptr = ExprId(reg_float_stack_ptr, is_reg=True)
-float_control = ExprId(reg_float_control, is_reg=True)
+float_control = ExprId(reg_float_control, 16, is_reg=True) # control word
 float_eip = ExprId(reg_float_eip, is_reg=True)
 float_cs = ExprId(reg_float_cs, size=16, is_reg=True)
 float_address = ExprId(reg_float_address, is_reg=True)
@@ -1963,7 +1963,8 @@ def fldenv(info, a):
     # TODO: real emulation rather than this one,
     # which is sufficient for turbulence
     e = []
-    e.append(ExprAff(float_control, a))
+    # the control word is the first 16 bits of the environment
+    e.append(ExprAff(float_control, ExprMem(a.arg, size=16)))
     return e
 
 def fchs(info):
